@@ -854,3 +854,18 @@ Theorem C06_limits_comp_refuted :
     find (monos_on H P) (Cfg 1 0 thr true false) H P <> limit 0 thr U.
 Proof. exact limits_comp_refuted. Qed.
 Print Assumptions C06_limits_comp_refuted.
+
+(** ** 21. A checkable sufficient condition for the premise "the threshold is not binding" of C06_default_call /
+    C06_sel_default_call.  [comp_bound enum strict H P] (proof/C06_Comp.v) is the maximum of the length of the
+    limit-free component-aware result ([comp_unl]) and, over the pattern components, of the number of embeddings
+    of that component into the large-enough host components ([percc_of]); it is computed by [vm_compute]
+    ([ex_not_binding], [ex_sel_default_call]).  From that threshold on the component-aware result is stable. *)
+Theorem C06_not_binding_checkable : forall (enum : list N -> list N -> list mapping) (strict : bool) (H P : graph) (T : N),
+  (comp_bound enum strict H P <= T)%N ->
+  forall T', (T <= T')%N ->
+  find enum (Cfg 1 0 T' strict false) H P = find enum (Cfg 1 0 T strict false) H P.
+Proof.
+  intros enum strict H P T HT T' HT'.
+  rewrite !(find_comp_unlimited enum); [reflexivity|exact HT|exact (N.le_trans _ _ _ HT HT')].
+Qed.
+Print Assumptions C06_not_binding_checkable.
